@@ -30,6 +30,7 @@ pub struct Args {
     pub out: Option<String>,
     pub case: Option<u64>,
     pub stage: Option<String>,
+    pub skip_stages: Vec<String>,
     pub threads: usize,
     pub scale: f64,
 }
@@ -44,7 +45,7 @@ impl Args {
         ((b as f64) * self.scale).ceil().max(1.0) as u64
     }
     pub fn want_stage(&self, s: &str) -> bool {
-        self.stage.as_deref().map(|x| x == s).unwrap_or(true)
+        !self.skip_stages.iter().any(|x| x == s) && self.stage.as_deref().map(|x| x == s).unwrap_or(true)
     }
 }
 
@@ -56,6 +57,7 @@ fn parse_args() -> Args {
         out: None,
         case: None,
         stage: None,
+        skip_stages: Vec::new(),
         threads: std::thread::available_parallelism().map(|n| n.get()).unwrap_or(4).min(16),
         scale: 1.0,
     };
@@ -67,6 +69,7 @@ fn parse_args() -> Args {
             "--out" => a.out = it.next(),
             "--case" => a.case = Some(it.next().expect("--case value").parse().expect("case")),
             "--stage" => a.stage = it.next(),
+            "--skip-stage" => a.skip_stages.push(it.next().expect("--skip-stage value")),
             "--threads" => a.threads = it.next().expect("--threads value").parse().expect("threads"),
             "--scale" => a.scale = it.next().expect("--scale value").parse().expect("scale"),
             "--small" => SMALL.store(true, std::sync::atomic::Ordering::Relaxed),
